@@ -201,6 +201,7 @@ def mc(module, wd, constants=None, invariants=(), properties=(), constraint=None
        deadlock=False, workers=None, timeout=1800, must_cover=(), spec="Spec"):
     """Bounded exhaustive model checking.  A failure here is a defect of the
     specification (the model does not depend on /repo), hence a tool error."""
+    os.makedirs(wd, exist_ok=True)
     cfg = os.path.join(wd, module + ".cfg")
     write_cfg(cfg, spec=spec, constants=constants, invariants=invariants, properties=properties,
               constraint=constraint, view=view, deadlock=deadlock)
